@@ -57,6 +57,54 @@ CLAIMED = {
         note="The orthonormality premise of the taps is checked numerically per wavelet; bounds in coverage.",
         technique="TLA+ formal orthogonality law over symbolic Gram operators (TLC) + exact and numeric operator replay",
         design="9/C17"),
+    "C03": dict(
+        text="TLC checks that the torch arrangement of colfilter/coldfilt/colifilt (tree stacking, strided correlation with "
+             "flipped filters, stack().view interleave, highpass flag) equals the NumPy reference (polyphase picks, polarity "
+             "rule) as symbolic operators for every row count and filter length, and that band wiring, quad->complex "
+             "combination, orientation order and the pyramid machine (odd-size replication, extension to a multiple of 4) "
+             "equal the reference pyramid. DTCWTForward is replayed on identity image batches with random integer filter "
+             "sets for every size in the bounds and compared exactly, plane by plane, with operators assembled from TLC's Ref "
+             "pieces (dtcwt.Transform2d pins the assembly); the real 1-D routines against TLC's entries; named filter pairs numerically.",
+        note="Polarity premise of the flag-for-data-test replacement is an identity of the tables (C18); bounded sizes.",
+        technique="TLA+ symbolic-operator model (torch = NumPy reference) + pyramid state machine (TLC) + exact operator replay",
+        design="9/C03"),
+    "C04": dict(
+        text="TLC proves exact integer perfect reconstruction of the 1-D analysis/synthesis stage models on rational filter "
+             "instances (LeGall for level 1; an orthonormal 4-tap lattice filter at every even offset of every q-shift "
+             "length, every row count in the bounds), c2q o q2c = identity, and on the pyramid machine that the inverse crops "
+             "exactly when the forward extended. The same instances are run through the real DTCWTForward/DTCWTInverse on "
+             "identity batches (odd sizes must come back even-extended with the image top-left); all 20 named pairs numerically.",
+        note="PR of the shipped tables' values is C18's obligation; here the index bookkeeping is exact.",
+        technique="TLA+ exact-integer PR law on rational filter instances (TLC) + round-trip replay through the real modules",
+        design="9/C04"),
+    "C06": dict(
+        text="TLC proves, under the table identities the gradients rely on (symmetric level-1 filters, tree b = reverse of "
+             "tree a), Transpose(colfilter) = colfilter and Transpose(coldfilt(x,hb,ha)) = colifilt(y,ha,hb) for every row "
+             "count/length/polarity, that c2q is the transpose of q2c, and the needs_input_grad case split. With integer "
+             "filter sets satisfying those identities the VJP matrices of the real DTCWTForward (layouts, skip masks, "
+             "requested lowpasses) and DTCWTInverse (every subset of leaves) are compared exactly with the transposed forward "
+             "matrix of the same module; named pairs numerically.",
+        note="User-supplied filters violating the identities are outside the property; bounded sizes.",
+        technique="TLA+ adjointness law under table identities (TLC) + exact VJP operator replay for all grad subsets",
+        design="9/C06"),
+    "C11": dict(
+        text="TLC checks colifilt/colfilter (torch = reference), c2q, the inverse band wiring and the inverse pyramid machine "
+             "including absent lowpass / levels (None, empty tensor, 0-dim placeholder) against zeros of the right shape. "
+             "DTCWTInverse is replayed on the basis of the WHOLE pyramid (every coefficient of every band) with random "
+             "integer filter sets for every size/J/absence mask in the bounds and compared exactly with the reference inverse "
+             "assembled from TLC's Ref pieces; deviations that equal the model of the coded pipeline in the inherent "
+             "'extension lost' region are reported as KNOWN-FINDING F6c; random pyramids for named pairs vs dtcwt.Transform2d.inverse.",
+        note="A pyramid whose lowpass and coarsest level are both absent has no shape: outside the property; bounded sizes.",
+        technique="TLA+ symbolic-operator model + inverse pyramid/absence state machine (TLC) + exact whole-pyramid operator replay",
+        design="9/C11"),
+    "C12": dict(
+        text="TLC checks the layout produced by the two stack() calls and the (h_dim, w_dim) tables of get_dimensions5/6 "
+             "against the declarative axis-permutation meaning for all 120 (o_dim, ri_dim) pairs (30 layouts + negative "
+             "aliases), and prefix consistency on the pyramid machine. On real tensors: all 120 pairs (subbands bitwise equal "
+             "to the permuted default; inverse with the same pair reconstructs), every skip and include mask (bitwise), every prefix.",
+        note="Values compared bitwise with the default-layout run of the same input.",
+        technique="TLA+ transcription of the layout case tables vs declarative permutation (TLC, all 120 pairs) + bitwise replay",
+        design="9/C12"),
     "C07": dict(
         text="An op-level acceptor (spec/LinearProg.tla) admits an aten operator only if it is linear and homogeneous in "
              "its input-dependent operands for fixed constants and never lets an input-dependent value steer indexing or "
